@@ -23,6 +23,7 @@ META = {
                     "deep equality semantics of arrays/objects (T: PartialEq)"],
 }
 META["explanation"] += " R7 value equality never uses Queryable::get. R8 the reference implementor's as_f64/as_i64/as_str/as_bool are unconditional delegations to serde_json."
+META["explanation"] += ' R9 literals denote exactly the value written (shared literal-exactness rule).'
 
 QT = "crate::query::queryable::Queryable"
 CMP_PROC = None
